@@ -1,0 +1,17 @@
+//go:build verif
+// +build verif
+
+package utils
+
+import "os"
+
+// VerifIOHook, when set by the verification harness, is called between the
+// file-system steps of EncodeJSONFile (crash points). f is the file being
+// written, pending the bytes about to be written (only at "before-write").
+var VerifIOHook func(point string, f *os.File, pending []byte)
+
+func verifIOPoint(point string, f *os.File, pending []byte) {
+	if h := VerifIOHook; h != nil {
+		h(point, f, pending)
+	}
+}
